@@ -428,7 +428,7 @@ def model_merge(dst, src, overwrite=False):
             out['range'] = (min(out['range'][0], src['range'][0]),
                             max(out['range'][1], src['range'][1]))
     for t, v in src['Cp'].items():
-        if not overwrite and t in out['Cp'] and out['Cp'][t] != v:
+        if not overwrite and t in out['Cp'] and differs(out['Cp'][t], v):
             raise Conflict(None, 'Cp')
         out['Cp'][t] = v
     for d in ('H', 'S'):
